@@ -15,6 +15,11 @@
              returns 0.
   C10-TEXT   ``ContentNode`` writes exactly ``self.text`` and ``Literal.parse`` takes it from the
              token value unchanged.
+  C10-CURSOR the parser advances once after a tag's ``parse`` returns, so ``parse`` of every tag
+             without a block must return with ``stream.current`` on a token of the tag (the tag
+             token or its verified expression token): four-state abstract run of ``parse`` over all
+             paths (sa/cursor.py).  Otherwise the token after the tag — text, an output statement,
+             another tag — is skipped and never output.
 Not decided: alternation-order semantics of the regex for pathological overlaps.
 """
 
@@ -43,7 +48,7 @@ def _group_of(expr) -> str | None:
 
 def run(repo: Repo) -> Result:
     res = Result(PID)
-    res.rules = ["C10-BLANK", "C10-TRAIL", "C10-LEAD", "C10-RAW", "C10-SILENT", "C10-TEXT"]
+    res.rules = ["C10-BLANK", "C10-TRAIL", "C10-LEAD", "C10-RAW", "C10-SILENT", "C10-TEXT", "C10-CURSOR"]
     res.explanation = "agreement between the lexer's regex alternatives (parsed, not matched) and the branches of _tokenize_template; write-nothing / write-verbatim rules for comment and content nodes"
     res.assumptions = ["regex alternation-order semantics for overlapping alternatives are not decided"]
     lm = LexModel(repo)
@@ -319,7 +324,62 @@ def run(repo: Repo) -> Result:
 
     nb = check_blank(repo, res, "C10-BLANK", min_classes=25)
     res.stats["blank_claims_checked"] = nb
+    # ---- C10-CURSOR -----------------------------------------------------------------
+    from ..cursor import OPAQUE, CursorRun
+    from ..normalize import nfunc
+
+    decided = []
+    for c in sorted(repo.subclasses("liquid.tag.Tag", strict=True), key=lambda k: k.qual):
+        blk = repo.find_attr(c, "block")
+        if blk is None or not (isinstance(blk[1], ast.Constant) and blk[1].value is False):
+            continue
+        pm = repo.find_method(c, "parse")
+        if pm is None or pm.cls is None or pm.cls.qual == "liquid.tag.Tag":
+            continue
+        f = nfunc(repo, pm)  # private helpers of the tag inlined
+        ps = [p for p in f.params() if p not in ("self", "cls")]
+        if not ps:
+            continue
+        run_ = CursorRun(f.node, ps[0]).run()
+        if run_.opaque:
+            if c.qual in CURSOR_DECIDED:
+                raise AnchorMissing(f"C10-CURSOR: {pm.qual} is no longer decidable by the cursor typestate ({run_.opaque[0]}); re-derive")
+            res.sample({"rule": "C10-CURSOR", "tag": c.qual, "note": f"not decided: {run_.opaque[0]}"})
+            continue
+        decided.append(c.qual)
+        res.ob(f"cursor:{pm.qual}", max(1, run_.returns))
+        seen_b = set()
+        for b in run_.bad:
+            if (b.state, getattr(b.node, "lineno", 0)) in seen_b:
+                continue
+            seen_b.add((b.state, getattr(b.node, "lineno", 0)))
+            what = {"LOOSE": "after it stepped past the tag token without checking that the next token is the tag's expression", "NOTEXPR": "after it stepped onto a token it found NOT to be the tag's expression", "PAST": "after it stepped past the tag's expression token"}.get(b.state, b.state)
+            res.add("C10-CURSOR", pm.qual, f"return:{b.state}", f"{pm.qual} can return {what}: the parser advances once more after parse returns, so the token that follows the tag (text, an output statement, another tag) is skipped and never output", pm.file, getattr(b.node, "lineno", pm.line))
+    missing = sorted(CURSOR_DECIDED - set(decided))
+    if missing:
+        raise AnchorMissing(f"C10-CURSOR: tags without a block that were decided on the reviewed tree are gone or no longer `block = False`: {missing}")
+    res.stats["cursor_tags_decided"] = len(decided)
+    res.stats["cursor_tags"] = [q.replace("liquid.", "") for q in decided]
     return res
+
+
+# tags without a block whose parse the cursor typestate decided on the reviewed tree
+CURSOR_DECIDED: set[str] = {
+    "liquid.builtin.content.Literal",
+    "liquid.builtin.illegal.Illegal",
+    "liquid.builtin.output.Output",
+    "liquid.builtin.tags.assign_tag.AssignTag",
+    "liquid.builtin.tags.cycle_tag.CycleTag",
+    "liquid.builtin.tags.decrement_tag.DecrementTag",
+    "liquid.builtin.tags.echo_tag.EchoTag",
+    "liquid.builtin.tags.for_tag.BreakTag",
+    "liquid.builtin.tags.for_tag.ContinueTag",
+    "liquid.builtin.tags.include_tag.IncludeTag",
+    "liquid.builtin.tags.increment_tag.IncrementTag",
+    "liquid.builtin.tags.inline_comment_tag.InlineCommentTag",
+    "liquid.builtin.tags.liquid_tag.LiquidTag",
+    "liquid.builtin.tags.render_tag.RenderTag",
+}
 
 
 def selftest(repo: Repo):
@@ -330,6 +390,10 @@ def selftest(repo: Repo):
 
     L = "liquid/lex.py"
     return [
+        v("assign-eats-its-expression", "liquid/builtin/tags/assign_tag.py", "tokens = stream.into_inner(tag=token, eat=False)", "tokens = stream.into_inner(tag=token)", "C10-CURSOR"),
+        v("break-steps-past-tag", "liquid/builtin/tags/for_tag.py", "        stream.expect(TOKEN_TAG, value=TAG_BREAK)\n", "        stream.eat(TOKEN_TAG)\n", "C10-CURSOR"),
+        v("liquid-tag-steps-without-peek", "liquid/builtin/tags/liquid_tag.py", "        if stream.peek.kind != TOKEN_EXPRESSION:", "        if stream.peek.kind == TOKEN_EOF:\n            next(stream)\n            block = BlockNode(token, [])\n        elif stream.peek.kind != TOKEN_EXPRESSION:", "C10-CURSOR"),
+        lambda: Variant("inline-comment-early-return-is-silent", text_edit(repo, "liquid/builtin/tags/inline_comment_tag.py", "        if stream.peek.kind == TOKEN_EXPRESSION:\n            next(stream)\n", "        if stream.peek.kind != TOKEN_EXPRESSION:\n            return self.node_class(token, text=stream.current.value)\n        next(stream)\n        if True:\n", 1), "", silent=True),
         v("raw-open-hyphen", L, 'lstrip = bool(match.group("rsr_e"))', 'lstrip = bool(match.group("rsr"))', "C10-TRAIL"),
         v("doc-open-hyphen", L, 'lstrip = bool(match.group("rsd"))', 'lstrip = bool(match.group("lsd"))', "C10-TRAIL"),
         v("output-never-trims", L, '            lstrip = bool(match.group("rss"))\n', "", "C10-TRAIL"),
